@@ -534,6 +534,9 @@ namespace pika::threads::detail {
                 if (scheduler.SchedulingPolicy::wait_or_add_new(
                         num_thread, running, idle_loop_count, enable_stealing_staged, added))
                 {
+#if defined(PIKA_VERIF)
+                    PIKA_VERIF_POINT(1907, &scheduler, num_thread, running ? 1 : 0);
+#endif
                     // Clean up terminated threads before trying to exit
                     bool can_exit = !running &&
                         scheduler.SchedulingPolicy::cleanup_terminated(num_thread, true) &&
